@@ -142,6 +142,7 @@ type Sim struct {
 	pools    map[unsafe.Pointer]*poolState
 	onces    map[unsafe.Pointer]*onceState
 	atomics  map[unsafe.Pointer]*atomicState
+	conds    map[unsafe.Pointer]*condState
 	keep     []any // keeps identities alive for the duration of the run
 	timers   []*timer
 	timerSeq int
